@@ -224,6 +224,15 @@ ConcCase gen_conc(const std::string& property, const std::string& tier, uint64_t
     c.zones.push_back(a); c.zones.push_back(b);
     c.tz_env_zone = wl.chance(0.5) ? -2 : static_cast<int>(wl.below(2));
     int k = static_cast<int>(wl.range(2, 4));
+    // Half of the runs have a focus: one kind of const operation that every task performs as its first query, so that
+    // whatever that operation sets up lazily on first use in a process is set up by several threads at once.
+    const bool focused = wl.chance(0.5);
+    const QKind focus_kind = wl.pick(std::vector<QKind>{Q_PARSE, Q_PARSE, Q_FORMAT, Q_FORMAT, Q_LOOKUP_CS, Q_LOOKUP_TP, Q_NEXT, Q_PREV, Q_CONV_CS, Q_DESC, Q_VERSION});
+    auto focus_query = [&]() {
+      Query q;
+      for (int tries = 0; tries < 400; ++tries) { q = gen_query(&wl, shape_for_base(a.base), true); if (q.k == focus_kind) break; }
+      return q;
+    };
     for (int t = 0; t < k; ++t) {
       std::vector<Op> ops;
       int n = static_cast<int>(wl.range(1, 4));
@@ -240,6 +249,7 @@ ConcCase gen_conc(const std::string& property, const std::string& tier, uint64_t
         }
         o.slot = i % c.nslots;
         ops.push_back(o);
+        if (focused && i == 0) { Op q; q.k = O_QUERY; q.slot = o.slot; q.q = focus_query(); ops.push_back(q); }
         if (wl.chance(0.6)) {
           Op q; q.k = O_QUERY; q.slot = o.slot; q.q.k = wl.chance(0.5) ? Q_LOOKUP_TP : Q_NAME; q.q.a = 1700000000;
           // ... or any other const operation: whatever format, parse, the transition scans or description() set up
